@@ -28,7 +28,7 @@ for pid in ids:
             d0 = subprocess.run(["/venv/bin/python", str(src / "demo.py"), "/repo"], capture_output=True, text=True, cwd="/tmp", env=env)
             res["demo_patched_rc"], res["demo_pristine_rc"] = d1.returncode, d0.returncode
             t0 = time.time()
-            r = subprocess.run(["/verif/run.py", pid, "--tier", "quick"], capture_output=True, text=True, cwd="/verif",
+            r = subprocess.run(["/verif/run.py", pid.split("-")[0], "--tier", "quick"], capture_output=True, text=True, cwd="/verif",
                                env=dict(os.environ, VERIF_REPO=wt, VT_NO_EVIDENCE="1", VT_REPLAY_DIR=tempfile.gettempdir() + "/vt-seed-replays"))
             sigs = [l.strip()[:160] for l in r.stdout.splitlines() if l.strip().startswith("signature=")]
             res["check"] = {"rc": r.returncode, "signatures": sigs[:4], "wall_s": round(time.time() - t0)}
